@@ -759,3 +759,279 @@ theorem C18_accuracy_positional (v : ℚ) (p : ℕ) (hp : 1 ≤ p) (hv4 : 1 / 10
   C18_accuracy v p _ hp (C18_exponent_decade_partial v p hp hv4 hv16)
 
 end CC
+
+namespace CC
+open CC.Fmt CC.Gen.Fmt
+
+/-! ## the exponent stage where `repr` uses exponent notation (small values) -/
+
+theorem exponent_unfold_of_intPart_zero (v : ℚ) (p : ℕ) {l : ℕ}
+    (hfs : floatToString p (qabs v) = { intPart := 0, lz := l, postZero := false }) :
+    exponent v p =
+      (let s2 := floatToString p (((rhe (qabs v * pow10 l * pow10 p) : ℤ) : ℚ) / pow10 p / pow10 l)
+       if s2.postZero then 0 else -((s2.lz : ℤ) + p)) := by
+  unfold exponent
+  simp only [hfs, ↓reduceIte]
+
+/-- **C18_exponent_decade** (small values) — for `0 < |v| < 1e-4` (Python's `repr` in
+exponent notation, `exponent` reads the digits of `'{:.nf}'`) the exponent stage delivers the
+exponent of the `p`-th significant digit: regular or rounding carry. -/
+theorem C18_exponent_decade_small (v : ℚ) (p : ℕ) (hp : 1 ≤ p) (hv0 : v ≠ 0) (hv4 : |v| < 1 / 10000) :
+    ExpOK v p (exponent v p) := by
+  have habs := qabs_eq_abs v
+  have h0 : 0 < qabs v := by rw [habs]; exact abs_pos.mpr hv0
+  have h4 : qabs v < 1 / 10000 := by rw [habs]; exact hv4
+  have h1 : qabs v < 1 := lt_trans h4 (by norm_num)
+  obtain ⟨hfs, hz4, hKlo, hKhi⟩ := floatToString_sci_small p h0 h4
+  obtain ⟨hz1, hz2⟩ := lzExact_spec h0 h1
+  have hKspec := rhe_spec (qabs v * ((10 ^ (lzExact (qabs v) + 2 + p) : ℕ) : ℚ))
+  rw [exponent_unfold_of_intPart_zero v p hfs]
+  simp only []
+  set a := qabs v with ha
+  set z := lzExact a with hz
+  have hpp := pow10_pos (p : ℤ)
+  have cHi : pow10 (p : ℤ) = (((10 ^ p : ℕ) : ℤ) : ℚ) := by rw [pow10_natCast']; push_cast; rfl
+  have cLo : pow10 ((p - 1 : ℕ) : ℤ) = (((10 ^ (p - 1) : ℕ) : ℤ) : ℚ) := by rw [pow10_natCast']; push_cast; rfl
+  -- the value 10^-z as a rounded value with R = 10^p
+  have hB10 := floatToString_rounded hz4 hp (R := ((10 ^ p : ℕ) : ℤ))
+    (by exact_mod_cast Nat.pow_le_pow_right (by norm_num : 0 < 10) (Nat.sub_le p 1)) le_rfl
+  have e10 : ((((10 ^ p : ℕ) : ℤ)) : ℚ) / pow10 ((z + p : ℕ) : ℤ) = pow10 (-(z : ℤ)) := by
+    rw [← cHi, ← pow10_sub]; congr 1; push_cast; ring
+  rw [e10, if_pos rfl] at hB10
+  by_cases hK : rhe (a * ((10 ^ (z + 2 + p) : ℕ) : ℚ)) = ((10 ^ (p + 2) : ℕ) : ℤ)
+  · -- the digits of '{:.nf}' round up to 10^-z: exp0 = z - 1
+    rw [if_pos hK]
+    -- a ≥ 10^-z - 10^-(z+2+p)/2
+    have hN : ((10 ^ (z + 2 + p) : ℕ) : ℚ) = pow10 ((z + 2 + p : ℕ) : ℤ) := (pow10_natCast' _).symm
+    have hPn := pow10_pos ((z + 2 + p : ℕ) : ℤ)
+    have hnear : pow10 (-(z : ℤ)) - pow10 (-((z + 2 + p : ℕ) : ℤ)) / 2 ≤ a := by
+      rw [hK, hN, abs_le] at hKspec
+      have e1 : pow10 (-(z : ℤ)) * pow10 ((z + 2 + p : ℕ) : ℤ) = (((10 ^ (p + 2) : ℕ) : ℤ) : ℚ) := by
+        rw [← pow10_add, show -(z : ℤ) + ((z + 2 + p : ℕ) : ℤ) = ((p + 2 : ℕ) : ℤ) by push_cast; ring, pow10_natCast']
+        push_cast; rfl
+      have e2 : pow10 (-((z + 2 + p : ℕ) : ℤ)) * pow10 ((z + 2 + p : ℕ) : ℤ) = 1 := by
+        rw [← pow10_add, show -((z + 2 + p : ℕ) : ℤ) + ((z + 2 + p : ℕ) : ℤ) = 0 by ring, pow10_zero]
+      by_contra hlt
+      push Not at hlt
+      have := mul_lt_mul_of_pos_right hlt hPn
+      nlinarith [hKspec.2]
+    have hz1' : 1 ≤ z := by omega
+    -- X = a·10^(z-1)·10^p rounds to 10^(p-1)
+    have hXeq : rhe (a * pow10 ((z - 1 : ℕ) : ℤ) * pow10 (p : ℤ)) = ((10 ^ (p - 1) : ℕ) : ℤ) := by
+      apply rhe_eq_of_near
+      rw [← cLo, abs_lt]
+      have eS : pow10 ((z - 1 : ℕ) : ℤ) * pow10 (p : ℤ) = pow10 ((z : ℤ) + p - 1) := by
+        rw [← pow10_add]; congr 1; omega
+      have hS := pow10_pos ((z : ℤ) + p - 1)
+      have e1 : pow10 (-(z : ℤ)) * pow10 ((z : ℤ) + p - 1) = pow10 ((p - 1 : ℕ) : ℤ) := by
+        rw [← pow10_add]; congr 1; omega
+      have e2 : pow10 (-((z + 2 + p : ℕ) : ℤ)) * pow10 ((z : ℤ) + p - 1) = pow10 (-3) := by
+        rw [← pow10_add]; congr 1; push_cast; ring
+      have e3 : pow10 (-3) = 1 / 1000 := by simp [pow10_eq_zpow]; norm_num
+      rw [mul_assoc, eS]
+      constructor
+      · have := mul_le_mul_of_nonneg_right hnear (le_of_lt hS)
+        rw [sub_mul, e1, div_mul_eq_mul_div, e2, e3] at this
+        linarith
+      · have := mul_lt_mul_of_pos_right hz2 hS
+        rw [e1] at this; linarith
+    have hcast : ((z - 1 : ℕ) : ℤ) = ((z - 1 : ℕ) : ℤ) := rfl
+    rw [hXeq]
+    have hround : ((((10 ^ (p - 1) : ℕ) : ℤ)) : ℚ) / pow10 (p : ℤ) / pow10 ((z - 1 : ℕ) : ℤ) = pow10 (-(z : ℤ)) := by
+      rw [← cLo, ← pow10_sub, ← pow10_sub]; congr 1; omega
+    rw [hround, hB10]
+    simp only [Bool.false_eq_true, ↓reduceIte]
+    right; left
+    rw [← habs]
+    have ee : -(((z - 1 : ℕ) : ℤ) + (p : ℤ)) + p - 1 = -(z : ℤ) := by omega
+    have ee' : -(((z - 1 : ℕ) : ℤ) + (p : ℤ)) - 1 = -(z : ℤ) - p := by omega
+    rw [ee, ee']
+    refine ⟨?_, hz2⟩
+    have : pow10 (-((z + 2 + p : ℕ) : ℤ)) ≤ pow10 (-(z : ℤ) - p) := pow10_le_pow10 (by push_cast; omega)
+    linarith
+  · -- exp0 = z
+    rw [if_neg hK]
+    have hpz := pow10_pos (z : ℤ)
+    have eLo : pow10 (-(z : ℤ) - 1) * pow10 z * pow10 p = pow10 ((p - 1 : ℕ) : ℤ) := by
+      rw [← pow10_add, ← pow10_add]; congr 1; omega
+    have eHi : pow10 (-(z : ℤ)) * pow10 z * pow10 p = pow10 (p : ℤ) := by
+      rw [← pow10_add, ← pow10_add]; congr 1; omega
+    have hXlo : pow10 ((p - 1 : ℕ) : ℤ) ≤ a * pow10 z * pow10 p := by
+      have := mul_le_mul_of_nonneg_right (mul_le_mul_of_nonneg_right hz1 (le_of_lt hpz)) (le_of_lt hpp)
+      rwa [eLo] at this
+    have hXhi : a * pow10 z * pow10 p < pow10 (p : ℤ) := by
+      have := mul_lt_mul_of_pos_right (mul_lt_mul_of_pos_right hz2 hpz) hpp
+      rwa [eHi] at this
+    have hRlo : ((10 ^ (p - 1) : ℕ) : ℤ) ≤ rhe (a * pow10 z * pow10 p) := le_rhe_of_le (by rw [← cLo]; exact hXlo)
+    have hRhi : rhe (a * pow10 z * pow10 p) ≤ ((10 ^ p : ℕ) : ℤ) := rhe_le_of_le (by rw [← cHi]; exact le_of_lt hXhi)
+    have hspec := rhe_spec (a * pow10 z * pow10 p)
+    rw [abs_le] at hspec
+    set R := rhe (a * pow10 z * pow10 p) with hR
+    have hform : (R : ℚ) / pow10 p / pow10 z = (R : ℚ) / pow10 ((z + p : ℕ) : ℤ) := by
+      rw [div_div, ← pow10_add]; congr 2; push_cast; ring
+    rw [hform, floatToString_rounded hz4 hp hRlo hRhi]
+    simp only [Bool.false_eq_true, ↓reduceIte]
+    by_cases hcarry : R = ((10 ^ p : ℕ) : ℤ)
+    · rw [if_pos hcarry]
+      right; left
+      rw [← habs]
+      have ee : -(((z - 1 : ℕ) : ℤ) + (p : ℤ)) + p - 1 = -(z : ℤ) := by omega
+      have ee' : -(((z - 1 : ℕ) : ℤ) + (p : ℤ)) - 1 = -(z : ℤ) - p := by omega
+      rw [ee, ee']
+      refine ⟨?_, hz2⟩
+      have e1 : pow10 (-(z : ℤ) - p) = pow10 (-(z : ℤ)) / pow10 p := pow10_sub _ _
+      have hX : pow10 (p : ℤ) - 1 / 2 ≤ a * pow10 z * pow10 p := by
+        have : (R : ℚ) = pow10 (p : ℤ) := by rw [hcarry, cHi]
+        linarith [hspec.2]
+      have e2 : pow10 (-(z : ℤ)) * pow10 z = 1 := by rw [← pow10_add]; simp [pow10_zero]
+      rw [e1]
+      have : (pow10 (-(z : ℤ)) - pow10 (-(z : ℤ)) / pow10 p / 2) * (pow10 z * pow10 p) = pow10 p - 1 / 2 := by
+        field_simp
+        nlinarith [e2]
+      have hpos : 0 < pow10 (z : ℤ) * pow10 (p : ℤ) := mul_pos hpz hpp
+      by_contra hlt
+      push Not at hlt
+      have := mul_lt_mul_of_pos_right hlt hpos
+      nlinarith
+    · rw [if_neg hcarry]
+      left
+      rw [← habs]
+      have ee : -((z : ℤ) + (p : ℤ)) + p - 1 = -(z : ℤ) - 1 := by ring
+      have ee' : -((z : ℤ) + (p : ℤ)) + p = -(z : ℤ) := by ring
+      rw [ee, ee']
+      exact ⟨hz1, hz2⟩
+
+/-- **C18_exponent_decade** (whole property domain) — for every rational `v ≠ 0` with
+`|v| < 1e16` (the property quantifies over `1e-15 … 1e15`) and every `p ≥ 1`. -/
+theorem C18_exponent_decade_domain (v : ℚ) (p : ℕ) (hp : 1 ≤ p) (hv0 : v ≠ 0) (hv16 : |v| < 10000000000000000) :
+    ExpOK v p (exponent v p) := by
+  rcases lt_or_ge |v| (1 / 10000) with h | h
+  · exact C18_exponent_decade_small v p hp hv0 h
+  · exact C18_exponent_decade_partial v p hp h hv16
+
+/-- **C18_accuracy** (whole property domain, unconditional) — for every rational `v ≠ 0`,
+`|v| < 1e16`, and every `p ≥ 1`, `mantissa · 10^exponent` as computed by `FloatPrecision` is
+within half a unit of the `p`-th significant digit of `v`. -/
+theorem C18_accuracy_domain (v : ℚ) (p : ℕ) (hp : 1 ≤ p) (hv0 : v ≠ 0) (hv16 : |v| < 10000000000000000) :
+    Accurate v p (((fp_mantissa v (exponent v p) : ℤ) : ℚ) * pow10 (exponent v p)) :=
+  C18_accuracy v p _ hp (C18_exponent_decade_domain v p hp hv0 hv16)
+
+example : ExpOK (47 / 10000000000) 2 (exponent (47 / 10000000000) 2) :=
+  C18_exponent_decade_domain _ 2 (by norm_num) (by norm_num) (by norm_num [abs_of_pos])
+
+end CC
+
+namespace CC
+open CC.Fmt CC.Gen.Fmt
+
+/-! ## unconditional corollaries on the property domain -/
+
+/-- with a regular exponent stage the mantissa has `p` digits (or is `±10^(p-1)` after the
+carry): `10^(p-1) ≤ |mantissa| ≤ 10^p` -/
+theorem mantissa_digits (v : ℚ) (p : ℕ) (e : ℤ) (hp : 1 ≤ p) (h : ExpRegular v p e) :
+    pow10 ((p : ℤ) - 1) ≤ |((fp_mantissa v e : ℤ) : ℚ)| ∧ |((fp_mantissa v e : ℤ) : ℚ)| ≤ pow10 (p : ℤ) := by
+  have hpe := pow10_pos e
+  have hp' : (1 : ℤ) ≤ p := by exact_mod_cast hp
+  have cHi : pow10 (p : ℤ) = (((10 ^ p : ℕ) : ℤ) : ℚ) := by rw [pow10_natCast']; push_cast; rfl
+  have cLo : pow10 ((p : ℤ) - 1) = (((10 ^ (p - 1) : ℕ) : ℤ) : ℚ) := by
+    rw [show (p : ℤ) - 1 = ((p - 1 : ℕ) : ℤ) by omega, pow10_natCast']; push_cast; rfl
+  have eA : pow10 (e + p - 1) = pow10 ((p : ℤ) - 1) * pow10 e := by rw [← pow10_add]; congr 1; ring
+  have eB : pow10 (e + p) = pow10 (p : ℤ) * pow10 e := by rw [← pow10_add]; congr 1; ring
+  have hle : (((10 ^ (p - 1) : ℕ) : ℤ)) ≤ ((10 ^ p : ℕ) : ℤ) := by
+    exact_mod_cast Nat.pow_le_pow_right (by norm_num : 0 < 10) (Nat.sub_le p 1)
+  unfold fp_mantissa
+  -- it suffices to bound the integer rhe (v / 10^e) between ±10^(p-1) and ±10^p
+  suffices hint : (((10 ^ (p - 1) : ℕ) : ℤ) ≤ rhe (v / pow10 e) ∧ rhe (v / pow10 e) ≤ ((10 ^ p : ℕ) : ℤ))
+      ∨ (-(((10 ^ p : ℕ) : ℤ)) ≤ rhe (v / pow10 e) ∧ rhe (v / pow10 e) ≤ -(((10 ^ (p - 1) : ℕ) : ℤ))) by
+    have h10 : (0 : ℤ) < ((10 ^ (p - 1) : ℕ) : ℤ) := by positivity
+    rw [cLo, cHi]
+    rcases hint with ⟨a, b⟩ | ⟨a, b⟩
+    · rw [abs_of_nonneg (by exact_mod_cast le_trans (le_of_lt h10) a)]
+      exact ⟨by exact_mod_cast a, by exact_mod_cast b⟩
+    · have hneg : ((rhe (v / pow10 e) : ℤ) : ℚ) ≤ 0 := by exact_mod_cast (by omega : rhe (v / pow10 e) ≤ 0)
+      rw [abs_of_nonpos hneg]
+      constructor
+      · have : (((10 ^ (p - 1) : ℕ) : ℤ)) ≤ -rhe (v / pow10 e) := by omega
+        exact_mod_cast this
+      · have : -rhe (v / pow10 e) ≤ ((10 ^ p : ℕ) : ℤ) := by omega
+        exact_mod_cast this
+  rcases h with ⟨h1, h2⟩ | ⟨h1, h2⟩
+  · -- regular
+    rcases le_or_gt 0 v with hv | hv
+    · rw [abs_of_nonneg hv] at h1 h2
+      left
+      constructor
+      · apply le_rhe_of_le; rw [← cLo, le_div_iff₀ hpe, ← eA]; exact h1
+      · apply rhe_le_of_le; rw [← cHi, div_le_iff₀ hpe, ← eB]; exact le_of_lt h2
+    · rw [abs_of_neg hv] at h1 h2
+      right
+      constructor
+      · apply le_rhe_of_le; rw [Int.cast_neg, ← cHi, le_div_iff₀ hpe, neg_mul, ← eB]; linarith
+      · apply rhe_le_of_le; rw [Int.cast_neg, ← cLo, div_le_iff₀ hpe, neg_mul, ← eA]; linarith
+  · -- carry: the mantissa is ±10^(p-1)
+    have hq' : pow10 (e - 1) = pow10 e / 10 := pow10_pred e
+    have hpow : pow10 e ≤ pow10 (e + p - 1) := pow10_le_pow10 (by omega)
+    rcases le_or_gt 0 v with hv | hv
+    · rw [abs_of_nonneg hv] at h1 h2
+      left
+      have hnear : |v / pow10 e - (((10 ^ (p - 1) : ℕ) : ℤ) : ℚ)| < 1 / 2 := by
+        rw [← cLo, abs_lt]
+        constructor
+        · rw [lt_sub_iff_add_lt, lt_div_iff₀ hpe]; rw [eA, hq'] at h1; nlinarith
+        · rw [sub_lt_iff_lt_add, div_lt_iff₀ hpe]; rw [eA] at h2; nlinarith
+      rw [rhe_eq_of_near hnear]; exact ⟨le_rfl, hle⟩
+    · rw [abs_of_neg hv] at h1 h2
+      right
+      have hnear : |v / pow10 e - ((-((10 ^ (p - 1) : ℕ) : ℤ) : ℤ) : ℚ)| < 1 / 2 := by
+        rw [Int.cast_neg, ← cLo, abs_lt]
+        constructor
+        · rw [lt_sub_iff_add_lt, lt_div_iff₀ hpe]; rw [eA] at h2; nlinarith
+        · rw [sub_lt_iff_lt_add, div_lt_iff₀ hpe]; rw [eA, hq'] at h1; nlinarith
+      rw [rhe_eq_of_near hnear]; exact ⟨by omega, le_rfl⟩
+
+theorem ExpOK.regular_of_not_roundsUp {v : ℚ} {p : ℕ} {e : ℤ} (h : ExpOK v p e) (hn : ¬ RoundsUpToOne v p) :
+    ExpRegular v p e := by
+  rcases h with h | h | ⟨_, h1, h2⟩
+  · exact Or.inl h
+  · exact Or.inr h
+  · exact absurd ⟨h1, h2⟩ hn
+
+/-- **C18_mantissa_range** (property domain, unconditional) — for every rational `v ≠ 0`,
+`|v| < 1e16`, every `p ≥ 1`, outside the rounds-up-to-one region, the mantissa scaled to the
+engineering exponent satisfies `1 ≤ |mantissa3| ≤ 1000`. -/
+theorem C18_mantissa_range_domain (v : ℚ) (p : ℕ) (hp : 1 ≤ p) (hv0 : v ≠ 0) (hv16 : |v| < 10000000000000000)
+    (hn : ¬ RoundsUpToOne v p) :
+    1 ≤ |f3_mantissa3 (fp_mantissa v (exponent v p)) (exponent v p) (f3_exponent3 p (exponent v p))|
+    ∧ |f3_mantissa3 (fp_mantissa v (exponent v p)) (exponent v p) (f3_exponent3 p (exponent v p))| ≤ 1000 := by
+  have hreg := (C18_exponent_decade_domain v p hp hv0 hv16).regular_of_not_roundsUp hn
+  obtain ⟨a, b⟩ := mantissa_digits v p _ hp hreg
+  exact C18_mantissa_range _ p _ a b
+
+/-- **C18_saturate** (property domain, unconditional) — outside the rounds-up-to-one region
+`is_inf` holds for every value beyond `10^(max_exp + p)` and only for values that reach that
+bound after rounding to `p` digits; its text is `∞` / `-∞` with the sign of `v`. -/
+theorem C18_saturate_domain (c : SFCfg) (v : ℚ) (hp : 1 ≤ c.precision) (hv0 : v ≠ 0) (hv16 : |v| < 10000000000000000)
+    (hn : ¬ RoundsUpToOne v c.precision) :
+    (Beyond v c.precision (c.value3 v).maxExp → (c.value3 v).isInf = true)
+    ∧ ((c.value3 v).isInf = true → BeyondRounded v c.precision (c.value3 v).maxExp
+        ∧ c.str v = if 0 < v then ['∞'] else ['-', '∞']) := by
+  have hok := C18_exponent_decade_domain v c.precision hp hv0 hv16
+  have hreg := hok.regular_of_not_roundsUp hn
+  obtain ⟨s1, s2⟩ := C18_saturate v c.precision (exponent v c.precision) (c.value3 v).maxExp hp hreg
+  refine ⟨s1, fun hinf => ⟨s2 hinf, ?_⟩⟩
+  rw [C18_saturate_text c v hinf]
+  obtain ⟨m1, m2⟩ := C18_mantissa_sign v c.precision (exponent v c.precision) hp hok
+  rcases lt_or_gt_of_ne hv0 with hv | hv
+  · have : ¬ (0 ≤ (c.value3 v).mantissa) := by
+      have := m2 hv
+      show ¬ (0 ≤ fp_mantissa v (exponent v c.precision)); omega
+    rw [if_neg this, if_neg (not_lt.mpr (le_of_lt hv))]
+  · have : 0 ≤ (c.value3 v).mantissa := by
+      have := m1 hv
+      show 0 ≤ fp_mantissa v (exponent v c.precision); omega
+    rw [if_pos this, if_pos hv]
+
+example : ¬ RoundsUpToOne (1234 / 10) 3 := by
+  unfold RoundsUpToOne; rw [abs_of_pos (by norm_num)]; norm_num
+
+end CC
